@@ -38,6 +38,12 @@ DISCONNECTS = [
      'VersionMismatch', '1.12.2'),
     ('outdated-server', '{"text":"Outdated server! I\'m still on 1.8.9"}',
      'VersionMismatch', '1.8.9'),
+    # ... also when the version named is not one the library knows
+    ('outdated-client-unknown', '{"text":"Outdated client! Please use 1.19.4"}',
+     'VersionMismatch', '1.19.4'),
+    ('outdated-server-unknown',
+     '{"text":"Outdated server! I\'m still on 1.6.4"}',
+     'VersionMismatch', '1.6.4'),
     ('unicode', '{"text":"Verbindung abgelehnt: é€"}', 'LoginDisconnect',
      'Verbindung abgelehnt: é€'),
     ('text-not-string', '{"text":5}', 'LoginDisconnect', '5'),
